@@ -345,6 +345,7 @@ var _ backend.Storage = (*memdev.Dev)(nil)
 func Run(c *hx.Ctx) {
 	r := c.Rng
 	e4rng := r.Fork()
+	subrng := r.Fork()
 	n := 0
 	type job struct {
 		id string
@@ -421,6 +422,7 @@ func Run(c *hx.Ctx) {
 	wg.Wait()
 	tables(c)
 	fatLog(c)
+	subWin(c, subrng)
 }
 
 func safely(f func() error) (err error) {
